@@ -127,6 +127,18 @@ def rule_lists(ctx: Ctx):
         if p.kind != "return":
             continue
         n += 1
+        vv = expand(p.value, evs)
+        if isinstance(vv, ast.Call) and show(vv.func) == "list" and len(vv.args) == 1 and isinstance(vv.args[0], ast.Call) and \
+                show(vv.args[0].func) == "dict.fromkeys" and isinstance(vv.args[0].args[0], (ast.GeneratorExp, ast.ListComp)):
+            g = vv.args[0].args[0]
+            gens = g.generators
+            ok2 = len(gens) == 2 and not gens[0].ifs and not gens[1].ifs and show(gens[0].iter) == "self.transitions" and \
+                isinstance(gens[0].target, ast.Name) and show(gens[1].iter) == f"{gens[0].target.id}.events" and \
+                isinstance(gens[1].target, ast.Name) and show(g.elt) == gens[1].target.id and len(vv.args[0].args) == 1
+            rep.check(ok2, "C13.lists", ue.loc(), "unique_events de-duplicates in first-occurrence order over transitions, then over each transition's events",
+                      ue.key, f"return {show(vv)}")
+            n += 1
+            continue
         d = next((f"$l{e.idx}" for e in evs if e.kind == "alloc" and isinstance(e.term, ast.Dict)), None)
         v = xshow(p.value, evs)
         iters = [e for e in evs if e.kind == "iter" and e.x.get("loop") == "for"]
